@@ -419,7 +419,7 @@ fn c15_grid(ctx: &mut Ctx, ch: &Choices) -> R {
 
 fn c15_options(ctx: &mut Ctx, ch: &Choices) -> R {
     // setters at 0, interior, max, max+1
-    let bs = *ch.pick("c15.bs", &[16u16, 15, 0, 17, 4096, 65535, 1000]);
+    let bs = *ch.pick("c15.bs", &[16u16, 15, 0, 17, 4096, 65535, 1000, 255, 256, 257, 258, 192, 576, 1152, 2304, 4608, 512, 1024, 2048, 8192, 16384, 32768, 193, 4609]);
     let lpc = *ch.pick("c15.lpc", &[Some(32u8), None, Some(0), Some(1), Some(31), Some(33), Some(255), Some(12)]);
     let part = *ch.pick("c15.part", &[15u32, 0, 6, 7, 16, u32::MAX, 8]);
     let pad = *ch.pick("c15.pad", &[(1u32 << 24) - 1, 0, 1, 1 << 24, u32::MAX, 4096]);
@@ -485,7 +485,7 @@ fn c15_stream_writer(ctx: &mut Ctx, ch: &Choices) -> R {
     let rate = *ch.pick("c15.sw.rate", &[44100u32, 0, 1, 12345, 65535, 655350, 655351, (1 << 20) - 1, 1 << 20, u32::MAX, 96000, 300000]);
     let chn = ch.draw("c15.sw.ch", 11) as u8;
     let bps = *ch.pick("c15.sw.bps", &[16u32, 0, 1, 4, 8, 12, 13, 20, 24, 32, 33, 17]);
-    let len = *ch.pick("c15.sw.len", &[10usize, 0, 1, 15, 16, 65535, 65536, 70000, 100, 128, 256, 1152, 4096, 192, 65537, 131071]);
+    let len = *ch.pick("c15.sw.len", &[10usize, 0, 1, 15, 16, 65535, 65536, 70000, 100, 128, 256, 1152, 4096, 192, 65537, 131071, 255, 257, 258]);
     let opts = match ch.draw("c15.sw.opts", 5) {
         0 => Options::default(),
         1 => Options::fast(),
